@@ -122,7 +122,7 @@ def run(tier, selftest=False, only=None):
                 "trace validated against Engine.tla by TLC; distinct = distinct recorded traces with > 2 events")
     rep.assumptions = [
         "run(ms) is exercised with ms = 0..2; its slice length is whatever the wall clock gives and is validated, not controlled",
-        "iterate_n(k) with k >= 1 only",
+        "iterate_n(k) with k >= 0",
         "two-object histories use configurations of identical state size (the shared native simulation would otherwise overflow the caller's buffer)",
         "hang = no return within 20 s for a history whose normal duration is milliseconds",
     ]
